@@ -376,6 +376,8 @@ pub struct TraitDef {
 pub struct ImplDef {
     /// None = inherent impl
     pub trait_: Option<usize>,
+    /// impl-level type parameters (`impl[T, U] Name[T, U] { .. }`): the methods are generic in them
+    pub tparams: u32,
     pub for_ty: Ty,
     /// indices into `fns` (for a trait impl: in the order of the trait's methods)
     pub methods: Vec<usize>,
